@@ -19,7 +19,10 @@ import BasicModel.Lemmas.ContLine
 import BasicModel.Lemmas.LinkedInv
 import BasicModel.Lemmas.Resume
 import BasicModel.Lemmas.Inspect
+import BasicModel.Lemmas.GenBound
+import BasicModel.Lemmas.Layout
 import BasicModel.Thm.C12
 import BasicModel.Thm.C13
 import BasicModel.Thm.C03
 import BasicModel.Thm.C04
+import BasicModel.Thm.C20Layout
